@@ -364,6 +364,12 @@ func genC12(g *Gen, n int) {
 	g.Emit("zip.checkzip "+hx("example.com/m")+" "+hx("v1.0.0")+" "+itoa(zipu500M+1)+" _", true, "zipsize")
 	g.Emit("zip.unzip "+hx("example.com/m")+" "+hx("v1.0.0")+" "+itoa(zipu500M+1)+" m _", true, "zipsize")
 	g.Emit("zip.unzip "+hx("example.com/m")+" "+hx("v1.0")+" "+itoa(zipu500M+1)+" m _", true, "zipsize")
+	// The fixed families above (with their mirrored ops) are nearly the quick tier's n by themselves (2314 of
+	// 2500 ops: the random archives below were down to about 55 per run): the random stream gets at least n/2
+	// ops of its own, however large the sweeps are.
+	if n < g.st.Ops+n/2 {
+		n = g.st.Ops + n/2
+	}
 	for g.st.Ops < n {
 		mp, mv := zipuPickMod(g.Rand, 6)
 		es := c12GenEntries(g.Rand, mp, mv, false)
